@@ -50,7 +50,7 @@ func prov(v ssa.Value, out map[string]bool, seen map[ssa.Value]bool) {
 		case strings.Contains(p, ".lex."):
 			out["lex"+p[strings.Index(p, ".lex.")+4:]] = true
 		default:
-			if strings.HasPrefix(p, "?") || strings.HasPrefix(p, "alloc:") || strings.HasPrefix(p, "phi:") {
+			if strings.HasPrefix(p, "?") || strings.HasPrefix(p, "alloc:") || strings.HasPrefix(p, "phi:") || rootedInHelperResult(v) {
 				// field of a computed value: follow the base
 				switch y := v.(type) {
 				case *ssa.FieldAddr:
@@ -90,6 +90,8 @@ func prov(v ssa.Value, out map[string]bool, seen map[ssa.Value]bool) {
 	case *ssa.MakeInterface:
 		prov(x.X, out, seen)
 	case *ssa.ChangeInterface:
+		prov(x.X, out, seen)
+	case *ssa.TypeAssert:
 		prov(x.X, out, seen)
 	case *ssa.BinOp:
 		prov(x.X, out, seen)
@@ -133,6 +135,9 @@ func prov(v ssa.Value, out map[string]bool, seen map[ssa.Value]bool) {
 	case *ssa.Alloc:
 		provAlloc(x, out, seen)
 	case *ssa.Extract:
+		if call, ok := x.Tuple.(*ssa.Call); ok && provHelperResult(call, x.Index, out, seen) {
+			return
+		}
 		prov(x.Tuple, out, seen)
 	case *ssa.Call:
 		if b, ok := x.Call.Value.(*ssa.Builtin); ok {
@@ -406,3 +411,75 @@ func (g *Gram) FieldFlow(p *Production, ctors map[string]*CtorSummary) (map[stri
 }
 
 var _ = types.Typ
+
+// rootedInHelperResult: the access path starts at one result of a multi-result in-module helper (a validation
+// function returning (value, ok)).
+func rootedInHelperResult(v ssa.Value) bool {
+	for i := 0; i < 8; i++ {
+		switch x := v.(type) {
+		case *ssa.FieldAddr:
+			v = x.X
+		case *ssa.Field:
+			v = x.X
+		case *ssa.UnOp:
+			if x.Op != token.MUL {
+				return false
+			}
+			v = x.X
+		case *ssa.Extract:
+			call, ok := x.Tuple.(*ssa.Call)
+			if !ok {
+				return false
+			}
+			h := call.Call.StaticCallee()
+			return h != nil && inModule(h) && len(h.Blocks) > 0 && h.Signature.Results().Len() >= 2
+		default:
+			return false
+		}
+	}
+	return false
+}
+
+// provHelperResult: provenance of result #k of a multi-result in-module helper, in the caller's terms: the union
+// over the helper's returns of the provenance of the returned value (nil returns aside), with the helper's
+// parameters replaced by the provenance of the arguments.
+func provHelperResult(call *ssa.Call, k int, out map[string]bool, seen map[ssa.Value]bool) bool {
+	h := call.Call.StaticCallee()
+	if h == nil || !inModule(h) || len(h.Blocks) == 0 || h.Signature.Results().Len() < 2 {
+		return false
+	}
+	inner := map[string]bool{}
+	n := 0
+	allInstrs(h, func(in ssa.Instruction) {
+		ret, ok := in.(*ssa.Return)
+		if !ok || k >= len(ret.Results) || isNilConst(ret.Results[k]) {
+			return
+		}
+		n++
+		prov(ret.Results[k], inner, map[ssa.Value]bool{})
+	})
+	if n == 0 {
+		return false
+	}
+	for s := range inner {
+		root, rest := s, ""
+		if i := strings.IndexAny(s, ".[@"); i >= 0 {
+			root, rest = s[:i], s[i:]
+		}
+		sub := false
+		for j, p := range h.Params {
+			if p.Name() == root && j < len(call.Call.Args) {
+				argp := map[string]bool{}
+				prov(call.Call.Args[j], argp, seen)
+				for a := range argp {
+					out[a+rest] = true
+				}
+				sub = true
+			}
+		}
+		if !sub {
+			out[s] = true
+		}
+	}
+	return true
+}
